@@ -134,6 +134,9 @@ def core_specs():
     for pq in [(2, 1), (3, 1), (3, 2), (4, 1), (4, 3), (5, 2)]:
         for form in ['le', 'obj', 'le_scaled']:
             S.append(dict(name='power%d_%d-%s' % (pq[0], pq[1], form), atom='power', pq=list(pq), form=form))
+    # element-wise power with an ARRAY of exponents (entries with p == q are compiled as abs, the others as power cones)
+    for form in ['le', 'obj', 'le_scaled']:
+        S.append(dict(name='powerarr-%s' % form, atom='powerarr', form=form))
     for ab in [(3, 1), (3, 2), (4, 1), (5, 2)]:
         for form in ['le', 'obj', 'le_scaled', 'obj_scaled']:
             if form == 'obj_scaled' and ab[1] != 1:
@@ -357,6 +360,22 @@ def desc_from_spec(spec):
             else:
                 a.st(a.le(h, u))
                 a.min(a.sum(u) + a.sum(np.array([0.5, -0.5]) * x))
+        elif atom == 'powerarr':
+            x = a.dvar(3)
+            u = a.dvar(3)
+            a.st(a.ge(x, -2.0))
+            a.st(a.le(x, 1.0))
+            a.st(a.le(u, 40.0))
+            h = a.power(x - np.array([0.5, -0.25, 0.0]), np.array([1, 2, 3]), np.array([1, 1, 2]))
+            if form == 'le':
+                a.st(a.le(h, u))
+                a.min(a.sum(u) + 0.5 * a.sum(x))
+            elif form == 'le_scaled':
+                a.st(a.le(2.0 * h - 1.0, u))
+                a.min(a.sum(u) + 0.5 * a.sum(x))
+            else:
+                a.st(a.le(h, u))
+                a.min(a.sum(u) + a.sum(np.array([0.5, -0.5, 0.25]) * x))
         elif atom == 'pnorm':
             aa, bb = spec['ab']
             x = a.dvar(2)
